@@ -366,6 +366,29 @@ opts_types = [
 bigint_stubs = cb.items("stub", "util", only=["new", "checked_add", "checked_sub", "checked_mul", "checked_mod", "checked_into", "checked_into_nonzero_usize", "maybe_into"], with_cmp=True)
 
 
+# ---- eval_asm: the nested fixed-point loop of asm blocks (C09/C02)
+FA = "src/asm/resolver/eval_asm.rs"
+asm_result_type = Type(FA, "struct", "AsmBlockResult", slot="resolver")
+asm_query_type = Type("src/expr/eval.rs", "struct", "EvalAsmBlockQuery", slot="expr")
+asm_resolve_once_stub = Fn(FA, "resolve_once", slot="resolver", mode="stub", ret="res", key="eval_asm::resolve_once",
+    sig_rewrites=[Rewrite("fn resolve_once(", "fn asm_resolve_once(", rule="R6", why="renamed: two functions called resolve_once live in one flattened module")],
+    ensures=[
+        C("strict_pass_recorded", "res is Ok && is_last_iteration ==> asm_strict_value(final(query).report) == res->Ok_0.value && asm_strict_stable(final(query).report) == !res->Ok_0.unstable"),
+        C("err_is_loud", "res is Err ==> final(query).report.msgs() > old(query).report.msgs()"),
+        C("ok_is_clean", "res is Ok ==> final(query).report.msgs() == old(query).report.msgs()"),
+    ])
+asm_resolve_iteratively = Fn(FA, "resolve_iteratively", slot="resolver", ret="res", key="eval_asm::resolve_iteratively", props=["C09", "C02", "C03"], gen_name="asm_resolve_iteratively",
+    sig_rewrites=[Rewrite("fn resolve_iteratively(", "fn asm_resolve_iteratively(", rule="R6", why="renamed: two functions called resolve_iteratively live in one flattened module")],
+    rewrites=[Rewrite("resolve_once(", "asm_resolve_once(", count=2, rule="R6", why="renamed callee (see above)")],
+    ensures=[
+        C("value_of_a_strict_stable_pass", "res is Ok && !(res->Ok_0 is Unknown) ==> res->Ok_0 == asm_strict_value(final(query).report) && asm_strict_stable(final(query).report)", ["C09", "C02"]),
+        C("unknown_only_while_guessing", "res is Ok && res->Ok_0 is Unknown && !asm_strict_stable(final(query).report) ==> !ctx.is_last_iteration", ["C02"]),
+        C("err_is_loud", "res is Err ==> final(query).report.msgs() > old(query).report.msgs()", ["C03"]),
+    ],
+    loops={1: Loop(invariant=[C("count", "iter_count <= max_iterations"), C("clean", "query.report.msgs() == old(query).report.msgs()")],
+                   decreases="max_iterations - iter_count")},
+)
+
 COMMON = (report_fns("stub", "diagn") + bigint_stubs + itemref_items("util") + expr_value_types +
           ast_types("asm") + defs_types("asm") + opts_types + deflist_fns("verify", "asm") + resolver_types)
 
@@ -375,7 +398,8 @@ UNIT = Unit(
     items=COMMON + [
               bits_until_alignment, can_guess, get_output_position, get_address, eval_address, advance_address,
               merge, iter_new, iter_next, resolve_constant_stub, resolve_instruction_stub, resolve_data_element_stub, resolve_once,
-              resolve_label, resolve_res, resolve_align, resolve_addr, resolve_assert, eval_stub, eval_certain_stub, deflist_define, bankdef_define] + value_stubs2 + value_verified,
+              resolve_label, resolve_res, resolve_align, resolve_addr, resolve_assert, eval_stub, eval_certain_stub, deflist_define, bankdef_define,
+              asm_query_type, asm_result_type, asm_resolve_once_stub, asm_resolve_iteratively] + value_stubs2 + value_verified,
     serves=["C01", "C02", "C03", "C06", "C09", "C19"],
     description="asm::resolver: address arithmetic (iter.rs), one resolution pass (resolve_once) and the per-item resolvers for labels, #res, #align, #addr, #assert",
 )
